@@ -75,8 +75,15 @@ def run(ctx):
                 b = b.operand
                 rev = ast.Constant(value=not (rev is not None and getattr(rev, 'value', False)))
             good_key = isinstance(b, ast.Subscript) and txt(b.value) == a and txt(b.slice) == '1'
-        elif key is not None and txt(key) in ('itemgetter(1)', 'operator.itemgetter(1)'):
-            good_key = True
+        else:
+            k2 = key
+            if isinstance(k2, ast.Name):
+                k2 = prog.module('cacheutils').const_expr(k2.id) or k2
+            if k2 is not None and txt(k2) in ('itemgetter(1)', 'operator.itemgetter(1)'):
+                good_key = True
+            elif isinstance(k2, ast.Lambda) and isinstance(k2.body, ast.Subscript) and txt(k2.body.value) == k2.args.args[0].arg \
+                    and txt(k2.body.slice) == '1':
+                good_key = True
         det = 'key=%s reverse=%s' % (txt(key), txt(rev))
         ok = ok and good_key and rev is not None and getattr(rev, 'value', None) is True
     ctx.ob('T22.sort', mc.fq, 'most_common sorts by the count component alone (keys are never compared), descending', ok,
@@ -123,10 +130,24 @@ def run(ctx):
             if isinstance(n, ast.Call) and isinstance(n.func, ast.Attribute) and n.func.attr in (
                     'update', 'pop', 'clear', 'setdefault', 'popitem') and txt(n.func.value) == 'self._count_map':
                 writers.setdefault('_count_map[...]', set()).add(name)
+    callers = {}
+    for nm, mem in ci.members.items():
+        if isinstance(mem, FuncInfo):
+            for n in ast.walk(mem.node):
+                if isinstance(n, ast.Call) and isinstance(n.func, ast.Attribute) and txt(n.func.value) == 'self':
+                    callers.setdefault(n.func.attr, set()).add(nm)
+
+    def owned(name, seen=()):
+        # __init__, add, or a private helper reachable only from them
+        if name in ('__init__', 'add'):
+            return True
+        if not name.startswith('_') or name.startswith('__') or name in seen:
+            return False
+        cs = callers.get(name, set())
+        return bool(cs) and all(owned(c, seen + (name,)) for c in cs)
     for f, ws in sorted(writers.items()):
-        allowed = {'__init__', 'add'}
-        ctx.ob('T11', CLS + '.' + f, 'written only by __init__ and add (every addition goes through add)', ws <= allowed,
-               loc=ci.module.relpath + ':%d' % ci.node.lineno, detail='writers: %s' % sorted(ws))
+        ctx.ob('T11', CLS + '.' + f, 'written only by __init__, add and private helpers reachable only from them (every addition goes '
+               'through add)', all(owned(x) for x in ws), loc=ci.module.relpath + ':%d' % ci.node.lineno, detail='writers: %s' % sorted(ws))
     # add: total += 1 exactly once, before the compaction test
     add = prog.func(CLS + '.add')
     w, paths = paths_of(prog, add, recv=ci)
@@ -140,19 +161,39 @@ def run(ctx):
         cnt = [o for o in p.ops if (o.kind == 'aug' and '_count_map' in txt(o.node.target)) or
                (o.kind == 'sub_store' and '_count_map' in txt(o.val.value) and o.kind == 'sub_store')]
         ctx.ob('T9.count', add.fq, 'the key\'s count is incremented or initialised on every path', bool(cnt), loc=add.loc)
-    # compaction predicate depends on both components
-    comps = [n for n in ast.walk(add.node) if isinstance(n, (ast.DictComp, ast.ListComp, ast.GeneratorExp)) and n.generators[0].ifs]
-    if not comps:
-        ctx.ob('T7.compact', add.fq, 'compaction filters the count map by a predicate', False, loc=add.loc)
-    for c in comps:
-        cond = c.generators[0].ifs[0]
-        tgt = c.generators[0].target
-        vname = txt(tgt.elts[1]) if isinstance(tgt, ast.Tuple) and len(tgt.elts) == 2 else txt(tgt)
+    # compaction predicate depends on both components (searched in add and the private helpers only add reaches)
+    scope = [add] + [m for nm, m in ci.members.items() if isinstance(m, FuncInfo) and nm.startswith('_') and not nm.startswith('__')
+                     and owned(nm) and nm not in ('__init__',)]
+    preds = []
+    for fn in scope:
+        bucket_names = {'self._cur_bucket'}
+        for n in ast.walk(fn.node):
+            if isinstance(n, ast.Assign) and txt(n.value) == 'self._cur_bucket' and isinstance(n.targets[0], ast.Name):
+                bucket_names.add(n.targets[0].id)
+        for n in ast.walk(fn.node):
+            conds = []
+            if isinstance(n, (ast.DictComp, ast.ListComp, ast.GeneratorExp, ast.SetComp)):
+                for g in n.generators:
+                    tgt = g.target
+                    var = txt(tgt.elts[1]) if isinstance(tgt, ast.Tuple) and len(tgt.elts) == 2 else txt(tgt)
+                    conds += [(c, var, fn) for c in g.ifs]
+            elif isinstance(n, ast.For) and '_count_map' in txt(n.iter):
+                tgt = n.target
+                var = txt(tgt.elts[1]) if isinstance(tgt, ast.Tuple) and len(tgt.elts) == 2 else txt(tgt)
+                for c in ast.walk(n):
+                    if isinstance(c, ast.If):
+                        conds.append((c.test, var, fn))
+            for cond, var, f2 in conds:
+                if isinstance(cond, ast.Compare) and len(cond.ops) == 1 and \
+                        ({txt(cond.left), txt(cond.comparators[0])} & bucket_names):
+                    preds.append((cond, var, f2))
+    if not preds:
+        ctx.ob('T7.compact', add.fq, 'compaction filters the count map by a predicate on the current bucket', False, loc=add.loc)
+    for cond, vname, f2 in preds:
         t = txt(cond)
         both = ('sum(%s)' % vname) in t or (('%s[0]' % vname) in t and ('%s[1]' % vname) in t)
-        gt = isinstance(cond, ast.Compare) and len(cond.ops) == 1 and isinstance(cond.ops[0], (ast.Gt, ast.Lt)) and '_cur_bucket' in t
         ctx.ob('T7.compact', add.fq, 'a key survives compaction iff count + bucket-at-entry > current bucket (both entry '
-               'components enter the predicate)', both and gt, loc=loc(add, cond), detail=t)
+               'components enter the predicate)', both, loc=loc(f2, cond), detail=t)
     # identities by construction
     guc = prog.func(CLS + '.get_uncommon_count')
     rets = [n for n in ast.walk(guc.node) if isinstance(n, ast.Return)]
